@@ -311,7 +311,8 @@ Inductive kind :=
 | KVec (c : seqc) | KVecAny (c : seqc)     (* Vec / Set / fixed-length array, with / without item schema *)
 | KRef (r : ustring)
 | KAny
-| KOne (tg : tagty).                       (* oneOf converted to a serde enum with this tagging *)
+| KOne (tg : tagty)                        (* oneOf converted to a serde enum with this tagging *)
+| KOpt.                                    (* oneOf [X, null]: Option<X> (maybe_option) *)
 
 Definition numv_is_none (nv : numv) : bool :=
   match nv with mkNumv None None None None None => true | _ => false end.
@@ -535,6 +536,25 @@ Definition one_untagged (bs : list schema) : bool :=
   | None => false
   end.
 
+(* enums.rs:27-67 maybe_option, tried first by convert_one_of: at least two arms, exactly one of them not
+   `"type": "null"` (whatever else a null arm says) -> Option of that arm.  The model takes two arms, the null one
+   plain; other unions with exactly one non-null arm are classified out. *)
+Definition nullish (b : schema) : bool :=
+  match b with
+  | SObj (Some [TNull]) _ _ _ _ _ _ _ _ _ _ _ _ _ _ _ _ _ _ _ _ _ _ _ => true
+  | _ => false
+  end.
+Definition plain_null (b : schema) : bool :=
+  match scalar_arm b with Some TNull => true | _ => false end.
+(* Some true = an Option; Some false = not an Option; None = an Option the model does not take *)
+Definition opt_shape (bs : list schema) : option bool :=
+  if (2 <=? length bs)%nat && (length (filter (fun b => negb (nullish b)) bs) =? 1)%nat then
+    match bs with
+    | [a; b] => if (nullish a && plain_null a) || (nullish b && plain_null b) then Some true else None
+    | _ => None
+    end
+  else Some false.
+
 (* enums.rs via convert.rs:1579-1611: external, then adjacent, then internal *)
 Definition one_kind (bs : list schema) : option tagty :=
   if one_external bs then Some TagExternal else
@@ -677,7 +697,14 @@ Section Classify.
 
   Definition classify : option (bool * kind) :=
     match oneo with
-    | Some bs => if only_one then option_map (fun tg => (false, KOne tg)) (one_kind bs) else None
+    | Some bs =>
+        if only_one then
+          match opt_shape bs with
+          | Some true => Some (false, KOpt)
+          | Some false => option_map (fun tg => (false, KOne tg)) (one_kind bs)
+          | None => None
+          end
+        else None
     | None =>
     if negb no_extras then None else
     match ty with
@@ -1046,6 +1073,16 @@ Section Convert.
                   match mk_tagged n (TagInternal tg) rvs deny with Some d => Some (d, s1) | None => None end
               end
           end
+      | KOpt =>
+          (* enums.rs:52-66: the arm under the inner name, assigned, wrapped (convert_option / type_to_option) *)
+          match oneo with
+          | Some (a :: b :: nil) =>
+              match (if nullish a then cv b (inner_name nm) s else cv a (inner_name nm) s) with
+              | Some (te, s1) => let '(i, s2) := assign te s1 in Some (DOption i, s2)
+              | None => None
+              end
+          | _ => None
+          end
       | KOne TagUntagged =>
           match type_name nm with
           | None => None
@@ -1292,6 +1329,14 @@ Fixpoint keys_sorted_b (l : list ustring) : bool :=
   | _ => true
   end.
 
+(* the non-null arm of an Option union: not nullable, not null, not itself such a union *)
+Definition opt_arm_ok (x : schema) : bool :=
+  match classify_s x with
+  | Some (false, KNull) | Some (false, KOpt) => false
+  | Some (false, _) => true
+  | _ => false
+  end.
+
 (* the taggings the theorems of Props/C0xF.v cover so far (the model and K3 cover all of them: frag_w) *)
 Definition proved_tag (tg : tagty) : bool :=
   match tg with _ => true end.
@@ -1426,6 +1471,11 @@ Section Frag.
                    | [] => []
                    | it :: r => names_of it (idx_name nm' i) ++ go r (S i)
                    end) items 0%nat
+            | KOpt =>
+                match oneo with
+                | Some (a :: b :: nil) => if nullish a then names_of b (inner_name nm') else names_of a (inner_name nm')
+                | _ => []
+                end
             | KOne tg =>
                 (* the payloads / members below the branches (a dissolved struct's own name is listed
                    although the struct itself never gets an id: it only asks for one more fresh name) *)
@@ -1483,6 +1533,13 @@ Section Frag.
                 end
             | KVec _ | KTuple => forallb frag items
             | KRef r => mem_ustr r keys
+            | KOpt =>
+                (* the arm in the fragment, not itself nullable / an Option / null *)
+                match oneo with
+                | Some (a :: b :: nil) =>
+                    if nullish a then opt_arm_ok b && frag b else opt_arm_ok a && frag a
+                | _ => false
+                end
             | KOne tg =>
                 match oneo with
                 | Some bs =>
@@ -1534,6 +1591,13 @@ Section Frag.
                 end
             | KVec _ | KTuple => forallb frag_w items
             | KRef r => mem_ustr r keys
+            | KOpt =>
+                (* the arm in the fragment, not itself nullable / an Option / null *)
+                match oneo with
+                | Some (a :: b :: nil) =>
+                    if nullish a then opt_arm_ok b && frag_w b else opt_arm_ok a && frag_w a
+                | _ => false
+                end
             | KOne tg =>
                 match oneo with
                 | Some bs =>
@@ -1565,6 +1629,11 @@ Fixpoint byval_refs (s : schema) {struct s} : list ustring :=
       | Some (_, KRef r) => [r]
       | Some (_, KStruct _) => flat_map (fun kv => byval_refs (snd kv)) props
       | Some (_, KVec (CArr _)) | Some (_, KTuple) => flat_map byval_refs items      (* [T; n] contains T by value (cycles.rs:169) *)
+      | Some (_, KOpt) =>
+          match oneo with
+          | Some (a :: b :: nil) => if nullish a then byval_refs b else byval_refs a
+          | _ => []
+          end
       | Some (_, KOne tg) =>              (* the variants' data is held by value *)
           match oneo with
           | Some bs =>
@@ -1661,6 +1730,11 @@ Fixpoint no_nullable_enum (s : schema) {struct s} : bool :=
       | Some (_, KMap) => match ap with Some vs => no_nullable_enum vs | None => true end
       | Some (_, KVec _) | Some (_, KTuple) => forallb no_nullable_enum items
       | Some (_, KOne _) => match oneo with Some bs => no_pinned bs | None => true end
+      | Some (_, KOpt) =>
+          match oneo with
+          | Some (a :: b :: nil) => if nullish a then no_nullable_enum b else no_nullable_enum a
+          | _ => true
+          end
       | _ => true
       end
   end.
